@@ -169,6 +169,9 @@ def st_mut(kind, N):
 def f_copy(case):
     kind, d, N = case['kind'], case['desc'], case['desc']['N']
     orig = build(kind, d)
+    for m in case.get('pre', []):        # the original may already have been run / compiled (lazily filled maps present)
+        if kind in ('gate', 'layer', 'circuit') and m['t'] in ('apply', 'compile'):
+            mutate(orig, kind, N, m)
     cp = orig.copy()
     check(type(cp) is type(orig), 'copy of %s is a %s' % (type(orig).__name__, type(cp).__name__), 'copy-type')
     check(values(cp) == values(orig), 'copy of %s differs from the original:\n %r\n %r' % (kind, values(cp), values(orig)), 'copy-differs')
@@ -197,7 +200,7 @@ def f_copy(case):
 def st_copy(hiN):
     def inner(t):
         N, kind = t
-        return st.fixed_dictionaries({'kind': st.just(kind), 'desc': st_desc(N),
+        return st.fixed_dictionaries({'kind': st.just(kind), 'desc': st_desc(N), 'pre': st.lists(st_mut(kind, N), max_size=2),
                                       'history': st.lists(st.tuples(st.booleans(), st_mut(kind, N)).map(list), min_size=1, max_size=5)})
     return st.tuples(st.integers(1, hiN), st.sampled_from(KINDS)).flatmap(inner)
 
